@@ -141,7 +141,7 @@ def gen_ops(book, rng, n, p_set=0.4):
     pool = [gen_target(book, rng) for _ in range(6)]      # repeated cells on purpose
     pick = lambda: rng.choice(pool) if rng.random() < 0.7 else gen_target(book, rng)
     style = lambda: rng.choice(['num', 'a1', 'named'])
-    val = lambda: rng.choice([0, 1, 4, 9, 11, 20, -3, 2.5, 0.25, 'ov', '', True, False, 1.0, 0.0])
+    val = lambda: rng.choice([0, 1, 4, 9, 11, 20, -3, 2.5, 0.25, 'ov', '', True, False, 1.0, 0.0, None])
     twins = {1: [True, 1.0], True: [1, 1.0], 0: [False, 0.0], False: [0, 0.0]}
     last = {}
 
@@ -156,7 +156,8 @@ def gen_ops(book, rng, n, p_set=0.4):
     for _ in range(n):
         k = rng.random()
         if k < p_set:
-            ops.append(('set', [write() for _ in range(rng.randint(1, 4))]))
+            # an empty batch now and then: it changes nothing and, in particular, does not cancel an earlier batch that has not been replayed yet
+            ops.append(('set', [write() for _ in range(rng.randint(1, 4))] if rng.random() < 0.85 else []))
         elif k < p_set + (1 - p_set) * 0.55:
             ops.append(('get', pick(), style()))
         elif k < p_set + (1 - p_set) * 0.85:
@@ -189,7 +190,7 @@ def ops_request(ops):
         if op[0] == 'set':
             parts += ['set', str(len(op[1]))]
             for (s, c, r), v, _ in op[1]:
-                parts += [str(s), str(c), str(r), core.enc(v)]
+                parts += [str(s), str(c), str(r), 'B' if v is None else core.enc(v)]       # an override without a value makes the cell blank
         elif op[0] == 'get':
             parts += ['get'] + [str(x) for x in op[1]]
         elif op[0] == 'gets':
